@@ -377,7 +377,7 @@ def cmp3 (c : Cmp) (e₁ e₂ : Expr) : Option Bool :=
     | _, _ => none
   else none
 
-/-! ## Class of the open findings PF-27 (b) / PF-29 (`known_findings.jsonl`)
+/-! ## Class of the open findings PF-C12e (b) / PF-C12f (`known_findings.jsonl`)
 
 The model takes `Sum` as the lambdified python loop and `subst` never evaluates anything.  sympy itself
 evaluates a `Sum` that has no free names left (by Karr's convention, or numerically) wherever a function
